@@ -49,3 +49,25 @@ Theorem C19_references_are_references :
   forall refsearch valid_name text c r, In r (references refsearch valid_name text c) -> is_ref r = true.
 Proof. exact references_are_refs. Qed.
 Print Assumptions C19_references_are_references.
+
+(* ---- plain-text mode, closed model: every returned reference citation derives from a full case citation that
+   is itself returned and ends before it, and the text at its span contains a plaintiff or defendant of that
+   citation that passes the name-validity rule (the rule and the reference pattern are computed inside the model:
+   Model/RefEngine.v, pattern captured from the code by the translator) ---- *)
+From EV Require Import Base.PyVal Model.Pipeline Model.Extract Model.E2E Model.RefEngine Model.E2EClosed Proofs.PipeSpec Proofs.ClosedRefs.
+
+Theorem C19_closed_refs : forall this_year s l c,
+  s <> s_eyecite -> ws_clean is_space_gen s ->
+  get_citations_closed this_year s false = Ok l -> In c l -> p_cls c = CRef ->
+  exists f name,
+    In f l /\ p_cls f = CFullCase /\ (snd (span_of f) <= fst (span_of c))%Z /\
+    (p_plaintiff f = Some name \/ p_defendant f = Some name) /\ is_valid_name name = true /\
+    infix name (pyslice s (fst (span_of c)) (snd (span_of c))).
+Proof. exact closed_refs_ok. Qed.
+Print Assumptions C19_closed_refs.
+
+Example C19_closed_refs_nonvacuous :
+  exists l, get_citations_closed 2026 s_example_ref false = Ok l /\
+            map (fun c => (p_cls c, span_of c)) l = [(CFullCase, (14, 22)%Z); (CRef, (34, 45)%Z)].
+Proof. exact closed_refs_nonvacuous. Qed.
+
